@@ -50,6 +50,11 @@ structure Client where
   useOwnBlockedServices : Bool
   /-- stands for the value of `BlockedServices` -/
   svc : Nat
+  /-- identity of the stored `SafeSearch` object; `0` = nil.  Independent of
+  `useOwnSettings` and of `safeSearchEnabled` (`SafeSearchConf.Enabled`). -/
+  safeSearch : Nat
+  /-- stands for the value of `Tags` -/
+  tags : Nat
   /-- identifies the struct value (which operation brought it in) -/
   ver : Nat
   deriving DecidableEq, Repr
@@ -408,15 +413,24 @@ def Storage.find (s : Storage) (id : IdStr) : Got :=
         | none => .none
         | some ip => s.findByLease ip
 
-/-- `filtering.Settings`, the fields `ApplyClientFiltering` writes. -/
+/-- `filtering.Settings`: every field, the ones `ApplyClientFiltering` may
+write and the ones it must leave alone. -/
 structure Settings where
   clientName : Bytes
+  /-- stands for `ClientTags` -/
+  clientTags : Nat
   /-- stands for `BlockedServices` -/
   svc : Nat
   filteringEnabled : Bool
   safeSearchEnabled : Bool
+  /-- identity of `ClientSafeSearch`; `0` = nil (the global engine is used) -/
+  clientSafeSearch : Nat
   safeBrowsingEnabled : Bool
   parentalEnabled : Bool
+  /-- `ProtectionEnabled`: never written here -/
+  protectionEnabled : Bool
+  /-- `ClientIP` and `ServicesRules` are as the caller left them -/
+  untouched : Bool
   deriving DecidableEq, Repr
 
 /-- The client `ApplyClientFiltering` picks. -/
@@ -433,11 +447,12 @@ def Storage.resolve (s : Storage) (id : Bytes) (addr : IP) : Got :=
 /-- What `ApplyClientFiltering` does to `setts` once the client is known. -/
 def Client.apply (c : Client) (setts : Settings) : Settings :=
   let setts := if c.useOwnBlockedServices then { setts with svc := c.svc } else setts
-  let setts := { setts with clientName := c.name }
+  let setts := { setts with clientName := c.name, clientTags := c.tags }
   if !c.useOwnSettings then setts
   else { setts with
     filteringEnabled := c.filteringEnabled
     safeSearchEnabled := c.safeSearchEnabled
+    clientSafeSearch := c.safeSearch
     safeBrowsingEnabled := c.safeBrowsingEnabled
     parentalEnabled := c.parentalEnabled }
 
